@@ -81,6 +81,25 @@ Fixpoint kloop (fuel j : nat) : res kres :=
     else kloop f (S j)
   end.
 
+(* The cached operator product (python: w_next) as explicit control state.  [cache = Some k] means
+   "w_next holds op applied to Lanczos vector k".  One trace entry per executed iteration:
+     (j, (index of the Lanczos vector whose product iteration j orthogonalises,
+          was the confirmation product op(v_{j+1}) computed in iteration j)).
+   python:  w = op(lanczos_vectors[-1]) if w_next is None else w_next;  w_next = None
+            ...  if err < exp_tolerance: w_next = op(lanczos_vectors[-1]) ...            *)
+Definition confirm_called (j : nat) : bool := a_ltb ar (err_of j) exp_tol && is_fixed fixed.
+
+Fixpoint ktrace (fuel j : nat) (cache : option nat) : list (nat * (nat * bool)) :=
+  match fuel with
+  | O => []
+  | S f =>
+    let used := match cache with Some k => k | None => j end in
+    if breakdown_at j then [(j, (used, false))]
+    else
+      let cache' := if confirm_called j then Some (S j) else None in
+      (j, (used, confirm_called j)) :: (if estimate_at j then [] else ktrace f (S j) cache')
+  end.
+
 (* krylov_exp_impl: with max_krylov_dim = 0 the tail reads the unbound local `expd` *)
 Definition kexp_impl (max_dim : nat) : res kres :=
   match max_dim with
